@@ -7,6 +7,7 @@ import (
 	"go/types"
 	"reflect"
 	"regexp"
+	"sort"
 	"strconv"
 	"strings"
 )
@@ -65,6 +66,14 @@ func AllLints(f *Func) []LintHit {
 	for _, r := range RawAfterNormaliseds(f) {
 		out = append(out, LintHit{"rawname", fmt.Sprintf("%s#raw(%s→%s)", f.Name, r.Raw, r.Use), r.Call.Pos(),
 			fmt.Sprintf("the block computes the attribute name as the part of %s before the separator, then passes the raw %s to %s: for a mapped \"attr:element\" pair the lookup misses", r.Raw, r.Raw, r.Use)})
+	}
+	for _, ic := range InvariantCalls(f) {
+		out = append(out, LintHit{"invariant", fmt.Sprintf("%s#invariant(%s)", f.Name, Src(f.Pkg.Fset, ic)), ic.Pos(),
+			fmt.Sprintf("`%s` is called for its effect in a loop but no argument depends on the iteration: each pass repeats the same effect on the same target and the per-iteration value is left untouched", Src(f.Pkg.Fset, ic))})
+	}
+	for _, u := range UnguardedMapStores(f) {
+		out = append(out, LintHit{"mapstore", fmt.Sprintf("%s#store(%s[%s])", f.Name, u.Map, Src(f.Pkg.Fset, u.Store.Lhs[0].(*ast.IndexExpr).Index)), u.Store.Pos(),
+			fmt.Sprintf("`%s` replaces the entry unconditionally, while another store to %s in this function first looks the key up and only creates the entry when absent: an entry filled there is overwritten here", Src(f.Pkg.Fset, u.Store), u.Map)})
 	}
 	for _, bb := range BareBreaks(f) {
 		cond := Src(f.Pkg.Fset, bb.If.Cond)
@@ -717,5 +726,203 @@ func RawAfterNormaliseds(f *Func) []RawAfterNormalised {
 		}
 		return true
 	})
+	return out
+}
+
+// InvariantCall: an expression statement calling a module function (result
+// discarded, so called for its effect on an argument) directly in a loop body,
+// none of whose arguments mentions a variable of the iteration (the loop
+// variables or anything assigned in the loop): every iteration repeats the same
+// effect on the same loop-invariant target, while the value built by the
+// iteration is left untouched.
+func InvariantCalls(f *Func) []*ast.CallExpr {
+	info := f.Pkg.TypesInfo
+	var out []*ast.CallExpr
+	ast.Inspect(f.Decl.Body, func(nd ast.Node) bool {
+		var body *ast.BlockStmt
+		iter := map[types.Object]bool{}
+		switch x := nd.(type) {
+		case *ast.RangeStmt:
+			body = x.Body
+			for _, e := range []ast.Expr{x.Key, x.Value} {
+				if id, ok := e.(*ast.Ident); ok {
+					if o := info.ObjectOf(id); o != nil {
+						iter[o] = true
+					}
+				}
+			}
+		case *ast.ForStmt:
+			body = x.Body
+			if as, ok := x.Init.(*ast.AssignStmt); ok {
+				for _, l := range as.Lhs {
+					if id, ok := l.(*ast.Ident); ok {
+						if o := info.ObjectOf(id); o != nil {
+							iter[o] = true
+						}
+					}
+				}
+			}
+		default:
+			return true
+		}
+		ast.Inspect(body, func(m ast.Node) bool {
+			switch y := m.(type) {
+			case *ast.AssignStmt:
+				for _, l := range y.Lhs {
+					if id := RootIdent(l); id != nil {
+						if o := info.ObjectOf(id); o != nil {
+							iter[o] = true
+						}
+					}
+				}
+			case *ast.RangeStmt:
+				for _, e := range []ast.Expr{y.Key, y.Value} {
+					if id, ok := e.(*ast.Ident); ok {
+						if o := info.ObjectOf(id); o != nil {
+							iter[o] = true
+						}
+					}
+				}
+			case *ast.ValueSpec:
+				for _, id := range y.Names {
+					if o := info.Defs[id]; o != nil {
+						iter[o] = true
+					}
+				}
+			}
+			return true
+		})
+		for _, st := range body.List {
+			es, ok := st.(*ast.ExprStmt)
+			if !ok {
+				continue
+			}
+			call, ok := es.X.(*ast.CallExpr)
+			if !ok || len(call.Args) == 0 {
+				continue
+			}
+			fn := Callee(info, call)
+			if fn == nil || fn.Pkg() == nil || !strings.HasPrefix(fn.Pkg().Path(), Mod) {
+				continue
+			}
+			if sig := fn.Type().(*types.Signature); sig.Recv() != nil {
+				continue // methods on accumulators (verr.Add, buf.Write) are the loop's output channel
+			}
+			uses := false
+			for _, a := range call.Args {
+				ast.Inspect(a, func(m ast.Node) bool {
+					if id, ok := m.(*ast.Ident); ok && iter[info.Uses[id]] {
+						uses = true
+					}
+					return !uses
+				})
+			}
+			// at least one argument must be a pointer-like local the call can mutate
+			if !uses {
+				out = append(out, call)
+			}
+		}
+		return true
+	})
+	return out
+}
+
+// UnguardedMapStore: a function fills map m in two places; one place looks the
+// key up first and creates the entry only when it is absent
+// (`v, ok := m[k]; if !ok { m[k] = … }`), the other stores unconditionally. If
+// entries must be created only once in one place they must in the other: the
+// unconditional store replaces an entry the first place may have filled.
+type UnguardedMapStore struct {
+	Store *ast.AssignStmt
+	Map   string
+}
+
+func UnguardedMapStores(f *Func) []UnguardedMapStore {
+	info := f.Pkg.TypesInfo
+	parent := ParentMap(f.Decl.Body)
+	type st struct {
+		as      *ast.AssignStmt
+		guarded bool
+	}
+	stores := map[types.Object][]st{}
+	ast.Inspect(f.Decl.Body, func(nd ast.Node) bool {
+		as, ok := nd.(*ast.AssignStmt)
+		if !ok || as.Tok != token.ASSIGN || len(as.Lhs) != 1 {
+			return true
+		}
+		ix, ok := as.Lhs[0].(*ast.IndexExpr)
+		if !ok {
+			return true
+		}
+		mid, ok := ast.Unparen(ix.X).(*ast.Ident)
+		if !ok {
+			return true
+		}
+		mo := info.Uses[mid]
+		if mo == nil {
+			return true
+		}
+		if _, isMap := mo.Type().Underlying().(*types.Map); !isMap {
+			return true
+		}
+		// guarded: an enclosing if tests !ok / v == nil where ok/v come from m[k] with the same key
+		guarded := false
+		for p := parent[as]; p != nil && !guarded; p = parent[p] {
+			is, ok := p.(*ast.IfStmt)
+			if !ok {
+				continue
+			}
+			// lookups: in the if's init, or in the statement preceding the if
+			var cands []ast.Stmt
+			if is.Init != nil {
+				cands = append(cands, is.Init)
+			}
+			if blk, ok := parent[is].(*ast.BlockStmt); ok {
+				for i, s := range blk.List {
+					if s == ast.Stmt(is) && i > 0 {
+						cands = append(cands, blk.List[i-1])
+					}
+				}
+			}
+			for _, cst := range cands {
+				las, ok := cst.(*ast.AssignStmt)
+				if !ok || len(las.Rhs) != 1 {
+					continue
+				}
+				lix, ok := ast.Unparen(las.Rhs[0]).(*ast.IndexExpr)
+				if !ok {
+					continue
+				}
+				lid, ok := ast.Unparen(lix.X).(*ast.Ident)
+				if !ok || info.Uses[lid] != mo || !SameExpr(info, lix.Index, ix.Index) {
+					continue
+				}
+				// the store sits in the branch of the if (then-branch of a negative test is the usual form)
+				if as.Pos() >= is.Body.Pos() && as.End() <= is.End() {
+					guarded = true // in either branch of the test: creation when absent, or update of what was read
+				}
+			}
+		}
+		stores[mo] = append(stores[mo], st{as, guarded})
+		return true
+	})
+	var out []UnguardedMapStore
+	for mo, ss := range stores {
+		anyGuarded := false
+		for _, s := range ss {
+			if s.guarded {
+				anyGuarded = true
+			}
+		}
+		if !anyGuarded {
+			continue
+		}
+		for _, s := range ss {
+			if !s.guarded {
+				out = append(out, UnguardedMapStore{s.as, mo.Name()})
+			}
+		}
+	}
+	sort.Slice(out, func(i, j int) bool { return out[i].Store.Pos() < out[j].Store.Pos() })
 	return out
 }
